@@ -77,6 +77,20 @@ CHECKS = {
                     "in front of expression text, lambda/keyword arity, no unsubstituted parameter. 'Compiles against "
                     "any conforming library' needs a compiler and the library and is not decided.",
             "note": TB},
+    "C10": {"engine": "E+F", "design_ref": "DESIGN.md section 3 C10",
+            "technique": "static analysis: guard pairing of preamble fragments, enumerate-from-zero shape, normal-form agreement of package paths across sibling sites, unconditional concatenation of classdef parts, single MEX-source entry",
+            "text": "Decides that collector/clean-up/RTTI fragments are emitted under the right (paired) conditions for "
+                    "every registered class, enumerators are numbered from 0 in declared order, all entity kinds "
+                    "derive their +package path by one normal form, the classdef always contains its mandatory parts "
+                    "and names its base, and exactly one MEX source entry exists. File contents are C05/C06/C11.",
+            "note": TB},
+    "C11": {"engine": "E+X", "design_ref": "DESIGN.md section 3 C11",
+            "technique": "static analysis: per-routine ownership obligations on constant-folded, tokenised C++ routine templates (create=>register, destroy-once, unload hook, base handle) + clang AST handle protocol of matlab.h",
+            "text": "Decides per-routine ownership obligations (each allocated handle registered and returned, destructor "
+                    "erases then deletes once, unload hook before first registration, base handle handed over in the "
+                    "right slot, handle protocol in matlab.h read as written). Call histories under MATLAB's lifetime "
+                    "rules and exceptions between allocation and registration are not decided.",
+            "note": TB + "; clang 14 + /verif/stubs as in C18"},
     "C12": {"engine": "G", "design_ref": "DESIGN.md section 3 C12",
             "technique": "static analysis: grammar reconstruction + layout classification of terminals/combinators",
             "text": "Decides the necessary structural conditions for layout/comment independence of parsing: "
@@ -139,4 +153,4 @@ CHECKS = {
 }
 PENDING = "checker not implemented yet in this revision (see DESIGN.md section 3 for the planned static rules)"
 NOT_APPLICABLE = {p: PENDING for p in
-                  ["C06", "C10", "C11"]}
+                  ["C06"]}
